@@ -111,6 +111,36 @@ CLAIMED["C09"] = dict(
     technique="Lean 4 proof over hand-written model + regenerated constant table + differential correspondence",
     engine="Rolling", ref="5 C09")
 
+CLAIMED["C07"] = dict(
+    text="Proof (Lean 4): theorem C07 - for every key schedule, 12-byte IV, AAD, every list of update pieces (any lengths "
+         "incl. 0 and partial blocks), enc and dec, tag length t: init; update*; finalize of the context state machine "
+         "model (Impl/GcmStream.lean, the seven isal_gcm_context_data fields, PARTIAL_BLOCK / whole blocks / new tail) "
+         "equals the one-shot SP 800-38D result on the concatenation; also for the vaes_avx512 protocol variant that "
+         "defers the last GHASH multiply of an exactly-256-byte update (C07_lazy). No length hypothesis needed. Tie: "
+         "after init and after EVERY update all context fields + output bytes of all four families, their _nt variants "
+         "(64-byte rule) and the public API are compared with the model; final tag; OpenSSL one-shot monitor.",
+    note=_AES_NOTE + " The CTR/GHASH kernels inside an update are modelled by the standard.",
+    technique="Lean 4 refinement proof over hand-written state-machine model + per-call context correspondence",
+    engine="AES", ref="5 C07")
+_MH_NOTE = ("Trusted: Lean kernel + standard axioms; the SIMD block functions are modelled as 16 independent compress chains "
+            "(tied by correspondence for all five families + public API); Spec/MultiHash.lean is the definition as read "
+            "from the property statement and pinned by known-answer tests.")
+CLAIMED["C05"] = dict(
+    text="Proof (Lean 4): for every partition of a stream < 2^32 bytes into update calls (empty ones included), "
+         "finalize(fold update init) = the multi-hash definition, for mh_sha1 and mh_sha256; the model follows "
+         "mh_sha1_update_base.c / _finalize_base.c statement by statement with the uint32/uint64 widths explicit. "
+         "Tie: context (total, partial length, 16 interim digests) after every update and final digest for "
+         "base/sse/avx/avx2/avx512/public API. Found and fixed F18 (mh_sha256 wrong in the Makefile.unx build).",
+    note=_MH_NOTE, technique="Lean 4 proof over hand-written model + differential correspondence per family",
+    engine="MultiHash", ref="5 C05")
+CLAIMED["C10"] = dict(
+    text="Proof (Lean 4): for every seed, every partition of a stream < 2^32 bytes: the stitched finalize returns "
+         "(mh_sha1 of the stream, MurmurHash3_x64_128 of the stream with both state words = seed); model follows "
+         "mh_sha1_murmur3_x64_128_{update,finalize}_base.c and murmur3_x64_128_internal.c incl. the order of operations "
+         "in finalize. Tie: correspondence incl. the running murmur state after every update, all families + public API.",
+    note=_MH_NOTE, technique="Lean 4 proof over hand-written model + differential correspondence per family",
+    engine="MultiHash", ref="5 C10")
+
 REASON_TODO = "check not built yet in this session (work in progress, see DESIGN.md status section)"
 
 props = [json.loads(l) for l in open(os.path.join(V, "properties.jsonl"))]
@@ -151,6 +181,8 @@ m = {
         "add_only": True,
     },
     "engines": [
+        {"name": "MultiHash", "path": "lean/IsalVerif/Impl/MhStream.lean", "serves_properties": ["C05", "C10"],
+         "kind_free_text": "model of mh_sha1/mh_sha256/stitched murmur streaming glue; Spec/MultiHash.lean, Spec/Murmur3.lean; harness/drv_mh.c"},
         {"name": "Rolling", "path": "lean/IsalVerif/Impl/RollingRun.lean", "serves_properties": ["C09"],
          "kind_free_text": "model of rolling_hash2.c + Spec/Rolling.lean; gen_rolling_table.py; harness/drv_rolling.c"},
         {"name": "Dispatch", "path": "lean/IsalVerif/Impl/Dispatch.lean", "serves_properties": ["C12"],
